@@ -1,6 +1,7 @@
 ------------------------------ MODULE Replicate ------------------------------
 (* C31 - pkg/services/object/server.go, Server.Replicate.
 
+   PART 1 - the decision on ONE request (stateless).
    Abstract input of a replication request:
      sig    "ok" | "bad" | "otherkey"    signature over the object ID verifies with the presented key
      scheme "sha512" | "rfc6979" | "walletconnect" | "n3" | "unknown"
@@ -9,12 +10,16 @@
      obj    "valid" | "badpayload" | "badheader" | "nochecksum"   (full validation of the object)
      cnr    "known" | "unknown"
    Output: ok (status OK), stored (the object reached the local storage).
+   Impl(in) follows the order of the checks in the handler (one early return per check); Accept(in) is the
+   property's reference: accepted iff signed (supported scheme) by a node of the object's container in the
+   current or previous epoch, the local node belongs to the container NOW, the object passes full validation.
 
-   Impl(in) follows the order of the checks in the handler (one early return per check) and says at which
-   stage the request is refused; Accept(in) is the property's reference: the request is accepted iff it is
-   signed (supported scheme) by a node of the object's container in the current or previous epoch, the local
-   node belongs to the container NOW, and the object passes full validation. TLC checks on all inputs that
-   the two agree, and every record produced by the real handler is compared with Accept.              *)
+   PART 2 - ONE server instance over time (state machine).
+   Epochs advance (Tick chooses who belongs to the container in the new epoch: every sender, the local node);
+   requests arrive in between. The implementation keeps NO memory between requests: the answer to a request
+   is Impl applied to the input derived from the membership AT THE TIME OF THE REQUEST. The invariants judge
+   the last answer against the stateless reference, so any server-side memory across requests (caches of
+   earlier membership checks, ...) that changes a verdict falsifies them on a recorded history.          *)
 EXTENDS Integers, Sequences, FiniteSets, TLC
 
 Sigs    == {"ok", "bad", "otherkey"}
@@ -27,30 +32,84 @@ Inputs  == [sig : Sigs, scheme : Schemes, client : Members, server : Members, ob
 SupportedScheme(s) == s \in {"sha512", "rfc6979", "walletconnect"}
 
 \* the property's reference
-Accept(in) == /\ in.sig = "ok" /\ SupportedScheme(in.scheme)
-              /\ in.cnr = "known"
-              /\ in.client \in {"cur", "prev"}
-              /\ in.server = "cur"
-              /\ in.obj = "valid"
+Accept(i) == /\ i.sig = "ok" /\ SupportedScheme(i.scheme)
+             /\ i.cnr = "known"
+             /\ i.client \in {"cur", "prev"}
+             /\ i.server = "cur"
+             /\ i.obj = "valid"
 
 \* the handler, check by check (stage at which it returns)
-Impl(in) ==
-  IF ~SupportedScheme(in.scheme)   THEN [ok |-> FALSE, stored |-> FALSE, stage |-> "scheme"]
-  ELSE IF in.sig # "ok"            THEN [ok |-> FALSE, stored |-> FALSE, stage |-> "signature"]
-  ELSE IF in.cnr # "known"         THEN [ok |-> FALSE, stored |-> FALSE, stage |-> "container"]
-  ELSE IF in.server # "cur"        THEN [ok |-> FALSE, stored |-> FALSE, stage |-> "server-not-in-container"]
-  ELSE IF in.client = "none"       THEN [ok |-> FALSE, stored |-> FALSE, stage |-> "client-not-in-container"]
-  ELSE IF in.obj # "valid"         THEN [ok |-> FALSE, stored |-> FALSE, stage |-> "object-validation"]
-  ELSE                                  [ok |-> TRUE,  stored |-> TRUE,  stage |-> "stored"]
+Impl(i) ==
+  IF ~SupportedScheme(i.scheme)   THEN [ok |-> FALSE, stored |-> FALSE, stage |-> "scheme"]
+  ELSE IF i.sig # "ok"            THEN [ok |-> FALSE, stored |-> FALSE, stage |-> "signature"]
+  ELSE IF i.cnr # "known"         THEN [ok |-> FALSE, stored |-> FALSE, stage |-> "container"]
+  ELSE IF i.server # "cur"        THEN [ok |-> FALSE, stored |-> FALSE, stage |-> "server-not-in-container"]
+  ELSE IF i.client = "none"       THEN [ok |-> FALSE, stored |-> FALSE, stage |-> "client-not-in-container"]
+  ELSE IF i.obj # "valid"         THEN [ok |-> FALSE, stored |-> FALSE, stage |-> "object-validation"]
+  ELSE                                 [ok |-> TRUE,  stored |-> TRUE,  stage |-> "stored"]
 
-VARIABLES in, out
-vars == <<in, out>>
-Init == in \in Inputs /\ out = Impl(in)
-Next == UNCHANGED vars
+-----------------------------------------------------------------------------
+CONSTANTS MaxEpoch,                    \* epochs 0..MaxEpoch
+          NSenders,                    \* senders 1..NSenders
+          RSigs, RSchemes, RObjs, RCnrs \* request alphabet of the exhaustive / generating runs
+
+Senders == 1..NSenders
+
+VARIABLES epoch,
+          curC, prevC,      \* [Senders -> BOOLEAN]: sender is a container node in the current / previous epoch
+          curS, prevS,      \* the local node ...
+          has, in, out      \* the last request: derived abstract input and the answer
+vars == <<epoch, curC, prevC, curS, prevS, has, in, out>>
+
+NoIn == [sig |-> "bad", scheme |-> "unknown", client |-> "none", server |-> "none", obj |-> "nochecksum", cnr |-> "unknown"]
+NoOut == [ok |-> FALSE, stored |-> FALSE, present |-> FALSE]
+
+Init == /\ epoch = 0
+        /\ curC = [s \in Senders |-> FALSE] /\ prevC = [s \in Senders |-> FALSE]
+        /\ curS = FALSE /\ prevS = FALSE
+        /\ has = FALSE /\ in = NoIn /\ out = NoOut
+
+Member(c, p) == IF c THEN "cur" ELSE IF p THEN "prev" ELSE "none"
+
+\* the abstract input of request e = what is TRUE about it at the time it arrives
+ReqIn(e) == [sig |-> e.sig, scheme |-> e.scheme, client |-> Member(curC[e.snd], prevC[e.snd]),
+             server |-> Member(curS, prevS), obj |-> e.obj, cnr |-> e.cnr]
+
+\* new epoch: e.c[s] / e.s say who belongs to the container in it
+DoTick(e) == /\ epoch' = epoch + 1
+             /\ prevC' = curC /\ curC' = [s \in Senders |-> e.c[s]]
+             /\ prevS' = curS /\ curS' = e.s
+             /\ UNCHANGED <<has, in, out>>
+
+\* request e answered with o
+DoReq(e, o) == /\ has' = TRUE /\ in' = ReqIn(e) /\ out' = o
+               /\ UNCHANGED <<epoch, curC, prevC, curS, prevS>>
+
+\* the implementation: no memory between requests
+ImplOut(e) == LET r == Impl(ReqIn(e)) IN [ok |-> r.ok, stored |-> r.stored, present |-> r.stored]
+
+TickEvents == [ev : {"Tick"}, c : [Senders -> BOOLEAN], s : BOOLEAN]
+ReqEvents  == [ev : {"Req"}, snd : Senders, sig : RSigs, scheme : RSchemes, obj : RObjs, cnr : RCnrs]
+
+Next == \/ epoch < MaxEpoch /\ \E e \in TickEvents : DoTick(e)
+        \/ \E e \in ReqEvents : DoReq(e, ImplOut(e))
 Spec == Init /\ [][Next]_vars
 
-\* C31 on the model
-AcceptIffAllChecks == out.ok <=> Accept(in)
-StoredOnlyIfAccepted == out.stored => Accept(in)
-AcceptedIsStored == out.ok => out.stored
+-----------------------------------------------------------------------------
+(* C31 *)
+\* judged on the last answered request (model and recorded histories)
+OkOnlyIfAccepted == has => (out.ok => Accept(in))
+StoredOnlyIfAccepted == has => ((out.stored \/ out.present) => Accept(in))
+OkMeansStored == has => (out.ok => (out.stored /\ out.present))
+\* not part of the property (an answer that refuses MORE than the reference): reported as drift
+AcceptedWhenAllChecksPass == has => (Accept(in) => out.ok)
+
+\* in every reachable membership situation, for EVERY request of the full input space, the check-by-check
+\* handler agrees with the reference
+\* (evaluated in the request-free states only: they already cover every reachable membership situation)
+AllRequestsAgree ==
+  has \/ \A snd \in Senders, sg \in Sigs, sc \in Schemes, ob \in Objs, cn \in Cnrs :
+    LET i == ReqIn([snd |-> snd, sig |-> sg, scheme |-> sc, obj |-> ob, cnr |-> cn])
+        r == Impl(i)
+    IN (r.ok <=> Accept(i)) /\ (r.stored => Accept(i)) /\ (r.ok => r.stored)
 =============================================================================
